@@ -136,6 +136,7 @@ async fn main() {
         "save_targets" => save::op_save_targets(sc).await,
         "filenames" => names::op_filenames(sc),
         "cache_roles" => names::op_cache_roles(sc).await,
+        "file_transport" => names::op_file_transport(sc).await,
         "mutate_signed" => mutate::op_mutate_signed(sc).await,
         "gen_keyfiles" => rootcli::op_gen_keyfiles(sc),
         "root_check" => rootcli::op_root_check(sc),
